@@ -121,7 +121,7 @@ def rule_swap_symmetry(ctx, rule='R04.a'):
             for w in ip.entry_writes:
                 recs.append((w['pair'], w['term']))
             if which == 'diameter':
-                for rec in o.attrs['sigma'].attrs['_native_store']:
+                for rec in ip.get_attr(o, 'sigma', None).attrs['_native_store']:
                     if isinstance(rec['value'], Num):
                         recs.append((rec['labels'], rec['value'].t))
             for (la, lb), t in recs:
